@@ -485,7 +485,7 @@ class Tr(object):
         if segs == ["Flow", "wrap"] and self.cfg.get("wrap_fields") and args[0][0] == "path" and args[0][1][0] in env and env[args[0][1][0]].kind == "struct":
             b = env[args[0][1][0]]
             return "(" + ", ".join(b.fields[f] for f in self.cfg["wrap_fields"]) + ")"
-        if segs == ["add_close_reason"]:
+        if segs == ["add_close_reason"] or segs[-2:] == ["mem", "replace"]:
             raise Impure()
         if segs[-2:] == ["str", "from_utf8"]:
             return "(std_from_utf8 %s)" % self.pure(args[0], env)
@@ -830,6 +830,16 @@ class Tr(object):
                 raise Unsupported("call of a computed function")
             if f[1] == ["log_data"]:
                 return k("tt", env)
+            if f[1][-2:] == ["mem", "replace"] and len(args) == 2:
+                # mem::replace(&mut place, v): the old value, the place set to v
+                a0 = args[0]
+                while a0[0] == "unary":
+                    a0 = a0[2]
+                if a0[0] != "path" or a0[1][0] not in env or env[a0[1][0]].kind not in ("val", "alias") or not env[a0[1][0]].mutable:
+                    raise Unsupported("mem::replace target")
+                b = env[a0[1][0]]
+                old = self.fresh("old")
+                return "let %s := %s in let %s := %s in %s%s" % (old, b.coq, b.coq, self.pure(args[1], env), " ".join(self.write_back(b, env)) + " " if b.kind == "alias" else "", k(old, env))
             if f[1] == ["add_close_reason"] and len(args) == 2:
                 a0 = args[0]
                 while a0[0] == "unary":
